@@ -16,6 +16,7 @@ import (
 
 func init() {
 	vfHarnesses["C15_ops"] = vfH_C15_ops
+	vfHarnesses["C15_props"] = vfH_C15_props
 	vfHarnesses["C15_refused"] = vfH_C15_refused
 }
 
@@ -74,6 +75,46 @@ func vfDecodeMatches(frame []byte, v vfValue) bool {
 	return false
 }
 
+// vfWithProps: when set (C15_props), each SET / INCR / APPEND / PUSH frame carries, or
+// does not carry, a property block (the key property the Redis-style commands attach),
+// decided per operation; the value semantics must not depend on it.
+var vfWithProps bool
+
+func vfProps(p string) []*protocol.LockCommandDataProperty {
+	if !vfWithProps || !vfBool(p+".prop") {
+		return nil
+	}
+	return []*protocol.LockCommandDataProperty{protocol.NewLockCommandDataProperty(protocol.LOCK_DATA_PROPERTY_CODE_KEY, vfBytes(p+".pv", vfRange(p+".pn", 1, 2)))}
+}
+
+func vfSetData(p string, b []byte) *protocol.LockCommandData {
+	if ps := vfProps(p); ps != nil {
+		return protocol.NewLockCommandDataSetDataWithProperty(b, ps)
+	}
+	return protocol.NewLockCommandDataSetData(b)
+}
+
+func vfIncrData(p string, d int64) *protocol.LockCommandData {
+	if ps := vfProps(p); ps != nil {
+		return protocol.NewLockCommandDataIncrDataWithProperty(d, ps)
+	}
+	return protocol.NewLockCommandDataIncrData(d)
+}
+
+func vfAppendData(p string, b []byte) *protocol.LockCommandData {
+	if ps := vfProps(p); ps != nil {
+		return protocol.NewLockCommandDataAppendDataWithProperty(b, ps)
+	}
+	return protocol.NewLockCommandDataAppendData(b)
+}
+
+func vfPushData(p string, b []byte) *protocol.LockCommandData {
+	if ps := vfProps(p); ps != nil {
+		return protocol.NewLockCommandDataPushDataWithProperty(b, ps)
+	}
+	return protocol.NewLockCommandDataPushData(b)
+}
+
 // vfNextOp chooses an operation compatible with the current kind, applies it to the
 // reference value and returns the frame to send.
 func vfNextOp(step int, cur vfValue) (*protocol.LockCommandData, vfValue) {
@@ -83,28 +124,28 @@ func vfNextOp(step int, cur vfValue) (*protocol.LockCommandData, vfValue) {
 		switch vfChoice(p+".k", 4) {
 		case 0:
 			b := vfBytes(p+".v", vfRange(p+".n", 1, 3))
-			return protocol.NewLockCommandDataSetData(b), vfValue{kind: vfVBytes, b: b}
+			return vfSetData(p, b), vfValue{kind: vfVBytes, b: b}
 		case 1:
 			d := vfI64(p + ".d")
-			return protocol.NewLockCommandDataIncrData(d), vfValue{kind: vfVNum, num: d}
+			return vfIncrData(p, d), vfValue{kind: vfVNum, num: d}
 		case 2:
 			b := vfBytes(p+".v", vfRange(p+".n", 1, 3))
-			return protocol.NewLockCommandDataAppendData(b), vfValue{kind: vfVBytes, b: b}
+			return vfAppendData(p, b), vfValue{kind: vfVBytes, b: b}
 		default:
 			b := vfBytes(p+".v", vfRange(p+".n", 1, 2))
-			return protocol.NewLockCommandDataPushData(b), vfValue{kind: vfVArray, items: [][]byte{b}}
+			return vfPushData(p, b), vfValue{kind: vfVArray, items: [][]byte{b}}
 		}
 	case vfVBytes:
 		switch vfChoice(p+".k", 4) {
 		case 0:
 			b := vfBytes(p+".v", vfRange(p+".n", 1, 3))
-			return protocol.NewLockCommandDataSetData(b), vfValue{kind: vfVBytes, b: b}
+			return vfSetData(p, b), vfValue{kind: vfVBytes, b: b}
 		case 1:
 			return protocol.NewLockCommandDataUnsetData(), vfValue{kind: vfVNone}
 		case 2:
 			b := vfBytes(p+".v", vfRange(p+".n", 1, 3))
 			nb := append(append([]byte(nil), cur.b...), b...)
-			return protocol.NewLockCommandDataAppendData(b), vfValue{kind: vfVBytes, b: nb}
+			return vfAppendData(p, b), vfValue{kind: vfVBytes, b: nb}
 		default:
 			if len(cur.b) == 0 {
 				return protocol.NewLockCommandDataUnsetData(), vfValue{kind: vfVNone}
@@ -116,24 +157,24 @@ func vfNextOp(step int, cur vfValue) (*protocol.LockCommandData, vfValue) {
 		switch vfChoice(p+".k", 3) {
 		case 0:
 			b := vfBytes(p+".v", vfRange(p+".n", 1, 3))
-			return protocol.NewLockCommandDataSetData(b), vfValue{kind: vfVBytes, b: b}
+			return vfSetData(p, b), vfValue{kind: vfVBytes, b: b}
 		case 1:
 			return protocol.NewLockCommandDataUnsetData(), vfValue{kind: vfVNone}
 		default:
 			d := vfI64(p + ".d")
-			return protocol.NewLockCommandDataIncrData(d), vfValue{kind: vfVNum, num: cur.num + d}
+			return vfIncrData(p, d), vfValue{kind: vfVNum, num: cur.num + d}
 		}
 	default:
 		switch vfChoice(p+".k", 4) {
 		case 0:
 			b := vfBytes(p+".v", vfRange(p+".n", 1, 3))
-			return protocol.NewLockCommandDataSetData(b), vfValue{kind: vfVBytes, b: b}
+			return vfSetData(p, b), vfValue{kind: vfVBytes, b: b}
 		case 1:
 			return protocol.NewLockCommandDataUnsetData(), vfValue{kind: vfVNone}
 		case 2:
 			b := vfBytes(p+".v", vfRange(p+".n", 1, 2))
 			ni := append(append([][]byte(nil), cur.items...), b)
-			return protocol.NewLockCommandDataPushData(b), vfValue{kind: vfVArray, items: ni}
+			return vfPushData(p, b), vfValue{kind: vfVArray, items: ni}
 		default:
 			n := vfRange(p+".n", 1, 2)
 			k := n
@@ -145,7 +186,10 @@ func vfNextOp(step int, cur vfValue) (*protocol.LockCommandData, vfValue) {
 	}
 }
 
-func vfH_C15_ops() {
+func vfH_C15_ops()   { vfWithProps = false; vfC15Ops() }
+func vfH_C15_props() { vfWithProps = true; vfC15Ops() }
+
+func vfC15Ops() {
 	env := vfNewEnv(1)
 	key := vfKey(1)
 	cur := vfValue{kind: vfVNone}
